@@ -251,3 +251,20 @@ package chainntnfs
 //@   loop * havoc
 //@   site call DisconnectTip: assert retn(GetBlockHash, 1) == nil && retn(GetBlockHeader, 1) == nil && arg(0) == txNotifier
 //@   site call GetBlockHeader: assert arg(1) == retn(GetBlockHash, 0) && retn(GetBlockHash, 1) == nil
+//@
+//@ // ---- blocks missed while the backend was silent: with a backend that keeps reorged blocks every call compares our best block with the
+//@ // ---- chain and rewinds the notifier to the common ancestor - whatever the height of the block that was heard (a reorg during the gap
+//@ // ---- is otherwise never disconnected); the missed blocks start right above the height the notifier was rewound to
+//@ func HandleMissedBlocks
+//@   props C14
+//@   loop * havoc
+//@   ensures result2 == nil && backendStoresReorgs ==> called(GetCommonBlockAncestorHeight) && retn(GetCommonBlockAncestorHeight, 1) == nil &&
+//@           called(RewindChain) && retn(RewindChain, 1) == nil && result0 == retn(RewindChain, 0)
+//@   ensures result2 == nil && !backendStoresReorgs ==> result0 == currBestBlock
+//@   ensures result2 == nil ==> called(getMissedBlocks) && retn(getMissedBlocks, 1) == nil && result1 == retn(getMissedBlocks, 0)
+//@   site call GetBlockHash: assert arg(1) == currBestBlock.Height
+//@   site call GetCommonBlockAncestorHeight: assert arg(0) == chainConn && retn(GetBlockHash, 1) == nil
+//@   site call RewindChain: assert arg(0) == chainConn && arg(1) == txNotifier && arg(2) == entry(currBestBlock) &&
+//@        arg(3) == retn(GetCommonBlockAncestorHeight, 0) && retn(GetCommonBlockAncestorHeight, 1) == nil
+//@   site call getMissedBlocks: assert arg(0) == chainConn && arg(2) == newHeight &&
+//@        arg(1) == swrap(ite(backendStoresReorgs, retn(GetCommonBlockAncestorHeight, 0), entry(currBestBlock).Height) + 1, 32)
